@@ -95,6 +95,12 @@ def tlEngine (ss : TlState) (args : List String) : TlState × String :=
     | some s, some now, some [caller, id, r, rr] =>
       if tlFitsI now && caller < 6 && id < 10 && r < 3 && rr < 6 && rr != caller then tlReply ss sid s (cancelWith 0 s ⟨0, s.delay, 1, false⟩ caller id r rr) else (ss, "bad-op")
     | _, _, _ => (ss, "bad-op")
+  -- batch approval: ids = comma-separated buffer ids (possibly repeated), "-" = empty batch
+  | ["approveb", sid, now, caller, r, ids] =>
+    match tlLookup ss sid, pInt now, allNat [caller, r], (if ids = "-" then some [] else (ids.splitOn ",").mapM pNat) with
+    | some s, some now, some [caller, r], some idl =>
+      if tlFitsI now && caller < 6 && r < 3 && idl.length ≤ 10 && idl.all (· < 10) then tlReply ss sid s (approveBatch s now caller r idl) else (ss, "bad-op")
+    | _, _, _, _ => (ss, "bad-op")
   | ["approve", sid, now, caller, id, r] =>
     match tlLookup ss sid, pInt now, allNat [caller, id, r] with
     | some s, some now, some [caller, id, r] =>
